@@ -38,7 +38,16 @@ def doLine (line : String) : String :=
     | _ => ("", "")
   let c := parsePCase cs
   let m := sequential c
-  let live := c.tail > 0
+  -- a live source is stopped only when the lifecycle stage gets to forward a message directly, i.e. when no lifecycle stays
+  -- buffered: decided on the model for the first 250 of the 300 tail messages (same construction as in the harness);
+  -- streams that keep a lifecycle buffered for good (e.g. a bogus huge timestamp) say nothing about this clause
+  let tailMsgs : List Msg :=
+    let lastTs := match (c.ms.filter (·.ecu == 0)).getLast? with | some x => x.tsDms | none => 0
+    let baseRecv := c.ms.foldl (fun a x => max a x.recv) (match (c.ms.filter (·.ecu == 0)).getLast? with | some x => x.recv | none => 1700000000000000)
+    (List.range 250).map fun k =>
+      { index := c.ms.length + k, recv := baseRecv + (k + 1) * 1000000, ecu := 0, tsDms := min (lastTs + (k + 1) * 10000) 4294967295,
+        hasTs := true, ctrlReq := false }
+  let live := c.tail > 0 && ((c.ms ++ tailMsgs).foldl Lcm.St.step {}).bufLcs.isEmpty
   let mobs := s!"B {m} # U {m} # term=1 # perr={if live then "1" else "-"}"
   let parts := impl.splitOn " # "
   let (b, u, t, pe) := match parts with
@@ -57,9 +66,10 @@ def doLine (line : String) : String :=
     else if live && pe != "perr=1" then "C13=FAIL:live-producer-not-stopped-after-consumer-loss"
     else "C13=ok"
   -- after consumer loss only termination and the prefix property are specified
-  let canon := if dropped && (c.sort || isPrefix) && t == "term=1" then s!"B {u} # U {u} # term=1 # {pe}" else impl
+  let pe' := if live then pe else "perr=-"
+  let canon := if dropped && (c.sort || isPrefix) && t == "term=1" then s!"B {u} # U {u} # term=1 # {pe'}" else impl
   let tags : List String :=
-    (if dropped then ["consumer-lost"] else []) ++ (if live then ["live-source"] else []) ++ (if c.sort then ["sorted"] else []) ++
+    (if dropped then ["consumer-lost"] else []) ++ (if live then ["live-source"] else if c.tail > 0 then ["live-source-undecided"] else []) ++ (if c.sort then ["sorted"] else []) ++
     (if c.filterEcu ≥ 0 then ["filtered"] else []) ++
     (if ((cs.splitOn "|").headD "").splitOn " " |>.any (· == "0") then ["rendezvous"] else []) ++
     (if (fields ((cs.splitOn "|").headD "") " ").any (fun x => x == "1" || x == "2") then ["tiny-capacity"] else [])
